@@ -339,6 +339,37 @@ class Normaliser:
         self._sign_cache[k] = sign
         return sign
 
+    def log_const(self, c):
+        """RatFun for log(c), c a positive rational: sum of e_p * log(p) over the primes of c when
+        numerator and denominator are small enough to factor (so log 4 = 2 log 2), else one atom."""
+        c = Fraction(c)
+        out = RatFun({})
+        if c == 1:
+            return out
+        parts = None
+        if max(c.numerator, c.denominator) < 10**12:
+            try:
+                import sympy
+
+                parts = {}
+                for pr, e in sympy.factorint(c.numerator).items():
+                    parts[int(pr)] = parts.get(int(pr), 0) + int(e)
+                for pr, e in sympy.factorint(c.denominator).items():
+                    parts[int(pr)] = parts.get(int(pr), 0) - int(e)
+                parts.pop(1, None)
+            except Exception:  # pragma: no cover
+                parts = None
+        if parts is None:
+            parts = {c: 1}
+        for pr, e in sorted(parts.items()):
+            if not e:
+                continue
+            pr = Fraction(pr)
+            i = self.atoms.get(("f", "log", ("const", pr)), ("f", ("log", str(pr))))
+            self.atom_terms.setdefault(i, R("f", ("log", R.const(pr))))
+            out = rf_add(out, RatFun(p_scale(p_atom(i), e)))
+        return out
+
     def logabs_single(self, t):
         """log|p| for a single polynomial argument of proved sign -> the log atom of sign*p."""
         r = self.norm(t.args[1])
@@ -350,9 +381,7 @@ class Normaliser:
             return None
         out = RatFun({})
         if abs(c) != 1:
-            i = self.atoms.get(("f", "log", ("const", abs(c))), ("f", ("log", str(abs(c)))))
-            self.atom_terms.setdefault(i, R("f", ("log", R.const(abs(c)))))
-            out = rf_add(out, RatFun(p_atom(i)))
+            out = rf_add(out, self.log_const(abs(c)))
         q = p_scale(pm, sg)
         i = self.atoms.get(("f", "log", ("poly", p_key(q))), ("f", ("log", self.show_poly(q, 4))))
         self.atom_terms.setdefault(i, R("f", ("log", self.poly_term(q))))
@@ -439,9 +468,7 @@ class Normaliser:
             return None
         out = RatFun({})
         if abs(c) != 1:
-            i = self.atoms.get(("f", "log", ("const", abs(c))), ("f", ("log", str(abs(c)))))
-            self.atom_terms.setdefault(i, R("f", ("log", R.const(abs(c)))))
-            out = rf_add(out, RatFun(p_atom(i)))
+            out = rf_add(out, self.log_const(abs(c)))
         for p, e in pieces:
             i = self.atoms.get(("f", "log", ("poly", p_key(p))), ("f", ("log", self.show_poly(p, 4))))
             self.atom_terms.setdefault(i, R("f", ("log", self.poly_term(p))))
